@@ -25,6 +25,12 @@ bool gh_known_site_hit; /* ghost: a call site recorded as a finding was executed
 #define LISTENER    (gh_c->d->listener)
 /* representation invariant: a listener that exchanges credentials / binds / resumes is installed only under tls_ok */
 #define LISTENER_INV (LISTENER.index < LISTENER_ALTS && (LISTENER.index == IDX_QXmppOutgoingClientPtr || LISTENER.index == IDX_StarttlsManager || TLS_OK))
+/* keep-alive (XEP-0199) sender outside the negotiation code: the ping timer may be armed only while a session is open, and a
+   session is open only under tls_ok (openSession requires tls_ok; stability assumption as for continuations) */
+#define PINGMGR     (gh_c->d->pingManager)
+#define SESSION_OPEN (gh_c->d->sessionStarted)
+#define PING_INV    (!PINGMGR.pingTimer->active || SESSION_OPEN)
+#define SESSION_INV (!SESSION_OPEN || TLS_OK)
 #define SENT_NOTHING (gh_sent == __CPROVER_old(gh_sent))
 #define SENT_ONLY_STARTTLS (gh_sent == __CPROVER_old(gh_sent) + 1 && gh_sent_last == XML_StarttlsRequest)
 
@@ -106,11 +112,14 @@ GUARDED_STEP(self->d->listener.index == IDX_C2sStreamManagerPtr)
 void QXmppOutgoingClient_startSmEnable(QXmppOutgoingClient *self)
 GUARDED_STEP(self->d->listener.index == IDX_C2sStreamManagerPtr)
 ;
+/* openSession: marks the session started and emits connected() -- unit C10 proves that connected() is emitted only with
+   d->sessionStarted set; the connected-slot of the PingManager (verified below) then arms the ping timer */
 void QXmppOutgoingClient_openSession(QXmppOutgoingClient *self)
 __CPROVER_requires(self == gh_c)
 __CPROVER_requires(GUARD)
-__CPROVER_assigns(gh_started, gh_sent, gh_sent_last)
+__CPROVER_assigns(gh_started, gh_sent, gh_sent_last, self->d->sessionStarted, self->d->pingManager.pingTimer->active)
 __CPROVER_ensures(gh_started == __CPROVER_old(gh_started) + 1)
+__CPROVER_ensures(self->d->sessionStarted)
 ;
 qtask SaslManager_authenticate(SaslManager *self, const QXmppConfiguration *config, qstrlist mechanisms, QXmppOutgoingClient *loggable)
 __CPROVER_requires(GUARD)
@@ -119,10 +128,13 @@ __CPROVER_ensures(gh_started == __CPROVER_old(gh_started) + 1)
 ;
 
 /* ---- the other listeners: they answer the server with credentials / bind / resend stanzas => require tls_ok ---------- */
+/* a listener that finishes its promise runs the continuation of its guarded step synchronously; that continuation may call
+   openSession (session started, ping timer armed by the connected-slot) */
 #define GUARDED_LISTENER \
 __CPROVER_requires(GUARD) \
-__CPROVER_assigns(gh_started, gh_sent, gh_sent_last) \
+__CPROVER_assigns(gh_started, gh_sent, gh_sent_last, gh_c->d->sessionStarted, gh_c->d->pingManager.pingTimer->active) \
 __CPROVER_ensures(gh_started == __CPROVER_old(gh_started) + 1) \
+__CPROVER_ensures(PING_INV && (SESSION_OPEN || !__CPROVER_old(gh_c->d->sessionStarted))) \
 __CPROVER_ensures(__CPROVER_return_value == HER_Accepted || __CPROVER_return_value == HER_Rejected || __CPROVER_return_value == HER_Finished)
 
 int NonSaslAuthManager_handleElement(NonSaslAuthManager *self, qdom el)
@@ -148,7 +160,6 @@ void C2sStreamManager_onStreamFeatures(C2sStreamManager *self, const QXmppStream
 bool C2sStreamManager_canRequestResume(const C2sStreamManager *self) __CPROVER_requires(1) __CPROVER_assigns() __CPROVER_ensures(1);
 bool C2sStreamManager_canRequestEnable(const C2sStreamManager *self) __CPROVER_requires(1) __CPROVER_assigns() __CPROVER_ensures(1);
 void CsiManager_onStreamFeatures(CsiManager *self, const QXmppStreamFeatures *features) __CPROVER_requires(1) __CPROVER_assigns(self->opaque) __CPROVER_ensures(1);
-void PingManager_onDataReceived(PingManager *self) __CPROVER_requires(1) __CPROVER_assigns(self->opaque) __CPROVER_ensures(1);
 
 /* ---- callees of QXmppOutgoingClient::handleElement ----------------------------------------------------------------- */
 /* stream-management bookkeeping: counts stanzas, processes <a/>, answers <r/> with an <a/> nonza (no stanza, no credential; not counted) */
@@ -178,4 +189,16 @@ bool QXmppOutgoingClient_handleStanza(QXmppOutgoingClient *self, qdom stanza)
 STANZA_DISPATCH
 __CPROVER_assigns(gh_started, gh_sent, gh_sent_last, gh_known_site_hit)
 __CPROVER_ensures(gh_started == __CPROVER_old(gh_started) + 1 && gh_sent >= __CPROVER_old(gh_sent) && gh_known_site_hit == (__CPROVER_old(gh_known_site_hit) || !TLS_OK))
+;
+
+/* ---- callees of the keep-alive code ------------------------------------------------------------------------------ */
+bool StreamAckManager_enabled(const StreamAckManager *self) __CPROVER_requires(1) __CPROVER_assigns() __CPROVER_ensures(1);
+/* writes a stream-management <r/> nonza (no stanza, no credential; not counted) */
+void StreamAckManager_sendAcknowledgementRequest(StreamAckManager *self) __CPROVER_requires(1) __CPROVER_assigns(self->opaque) __CPROVER_ensures(1);
+/* StreamAckManager::send(QXmppPacket): a stanza goes to the wire => requires tls_ok */
+qtask StreamAckManager_send_stanza(StreamAckManager *self, int kind)
+__CPROVER_requires(GUARD)
+__CPROVER_assigns(gh_sent, gh_sent_last, gh_ev_last, gh_ev_prev, self->opaque)
+__CPROVER_ensures(gh_sent == __CPROVER_old(gh_sent) + 1 && gh_sent_last == kind)
+__CPROVER_ensures(gh_ev_prev == __CPROVER_old(gh_ev_last) && gh_ev_last == EV_SEND)
 ;
